@@ -99,3 +99,46 @@ Definition eval_domb (b : board) : bool :=
   forallb (fun x => x <? two64) (pcs b) && forallb (fun x => x <? two64) (cols b) &&
   (N.ldiff (pieces b Knight) (occupancy b) =? 0) && (N.ldiff (pieces b Bishop) (occupancy b) =? 0) &&
   is_pow2 (band (pieces b King) (colors b White)) && is_pow2 (band (pieces b King) (colors b Black)).
+
+(* ------------------------------------------------------------------------------------------ *)
+(* judges of the usage-pattern streams (independent of the evaluation model) *)
+Open Scope Z_scope.
+
+(* judge_c17s (input ++ observed): input = board-in ++ [n; op_1 .. op_n]; observed = for every Eval
+   operation (code 262144) the value on the long-lived session board and the value on a fresh
+   board of the same position.  [1] all pairs agree;  [0; k] the k-th evaluation (from 0) of the
+   session differs from the fresh board;  [0; -1] wrong number of values (panic);  [0; -2] malformed. *)
+Fixpoint pairs_agree (k : Z) (l : list Z) : list Z :=
+  match l with
+  | a :: b :: rest => if a =? b then pairs_agree (k + 1) rest else [0; k]
+  | _ => [1]
+  end.
+
+Definition judge_c17s (l : list Z) : list Z :=
+  match decode_board l with
+  | Some (_, n :: rest) =>
+      let ops := firstn (Z.to_nat n) rest in
+      let obs := skipn (Z.to_nat n) rest in
+      let k := length (filter (fun o => o =? 262144) ops) in
+      if negb (length ops =? Z.to_nat n)%nat then [0; -2] else
+      if negb (length obs =? 2 * k)%nat then [0; -1] else pairs_agree 0 obs
+  | _ => [0; -2]
+  end.
+
+(* judge_c17c (input ++ observed): input = [goroutines; rounds; nb] ++ nb board-in records;
+   observed = [mismatches; first differing board; sequential value; concurrent value] ++ nb values.
+   The comparison concurrent = sequential is made by the harness (an observation of runtime
+   behaviour); the judge reads its verdict.  [1] no mismatch;  [0; i] board i differed;  [0; -1] panic. *)
+Definition judge_c17c (l : list Z) : list Z :=
+  match l with
+  | _ :: _ :: nb :: rest =>
+      let r := decode_boards (Z.to_nat nb) rest in
+      if negb (length (fst r) =? Z.to_nat nb)%nat then [0; -2] else
+      match snd r with
+      | mism :: idx :: _ :: _ :: vals =>
+          if negb (length vals =? Z.to_nat nb)%nat then [0; -1] else
+          if mism =? 0 then [1] else [0; idx]
+      | _ => [0; -1]
+      end
+  | _ => [0; -2]
+  end.
